@@ -809,6 +809,19 @@ func (e *lsEnv) step(c lsCmd, which string, history []string) (res lsStepResult)
 	ds, fsx := lsStatus(dryErr), lsStatus(forceErr)
 	_, lockErr := os.Stat(filepath.Join(e.idx, lockFileName))
 
+	// ---- C33: the SAME command without -f once more, on the state the forced run left (preview, -f, preview)
+	var dry2 []lsLine
+	var ds2 uint64
+	var dry2Out string
+	var dry2Err error
+	var snap3 map[string]lsStat
+	if which == "C33" {
+		dry2Out, dry2Err = e.exec(c, false)
+		snap3 = lsSnapshot(e.idx)
+		dry2 = e.parseOut(dry2Out)
+		ds2 = lsStatus(dry2Err)
+	}
+
 	// ---- file-level facts of the forced run
 	gone := func(f string) bool { _, ok := snap2[f]; return !ok }
 	rewritten := func(f string) bool {
@@ -893,6 +906,48 @@ func (e *lsEnv) step(c lsCmd, which string, history []string) (res lsStepResult)
 			n, _ := lsFileKey(strings.TrimSuffix(f, ".meta"))
 			if !lsHas(wi, n) {
 				vfOracleFail(kind+":unannounced-write", "the forced run wrote a file the preview did not announce", rp(map[string]any{"file": f}))
+			}
+		}
+		// ---- preview, -f, preview: the second preview changes nothing either, and after a SUCCESSFUL forced sync it has
+		// nothing left to announce (every discovered repository "Up to date", no removal, no error): sync is idempotent
+		rp2 := func(extra map[string]any) map[string]any {
+			m := rp(extra)
+			m["second_preview_output"] = dry2Out
+			m["second_preview_error"] = fmt.Sprint(dry2Err)
+			return m
+		}
+		if d := lsSnapDiff(snap2, snap3); len(d) > 0 {
+			vfOracleFail("preview-mutates-index-dir:"+kind+":"+strings.SplitN(d[0], ":", 2)[0]+"[second-preview]",
+				"the preview run after the forced run changed the index directory", rp2(map[string]any{"diff": d}))
+		}
+		if !c.remove && fsx == 0 {
+			wr2, wi2 := lsNames(dry2, "would-remove"), lsNames(dry2, "would-index")
+			if len(wr2)+len(wi2) > 0 || ds2 != 0 {
+				vfOracleFail("sync:second-preview-announces-work",
+					"after a successful sync -f the same command without -f still announces removals or indexing (or fails): sync -f is not idempotent",
+					rp2(map[string]any{"would_remove": wr2, "would_index": wi2, "second_preview_status": ds2}))
+			}
+			// and it reports exactly the repositories the forced run worked on
+			var worked []string
+			for _, l := range force {
+				if l.kind == "indexing" {
+					worked = append(worked, l.name)
+				}
+			}
+			sort.Strings(worked)
+			if utd2 := lsNames(dry2, "up-to-date"); ds2 == 0 && len(wi2) == 0 && !lsEq(utd2, worked) {
+				vfOracleFail("sync:second-preview-up-to-date-set-differs",
+					"the repositories reported Up to date after sync -f are not those the forced run indexed or found up to date",
+					rp2(map[string]any{"up_to_date": utd2, "forced_run_repositories": worked}))
+			}
+		}
+		if c.remove && fsx == 0 {
+			// a removal that was performed is not announced again
+			for _, f := range lsNames(dry2, "would-remove") {
+				if lsHas(lsNames(force, "removing"), f) {
+					vfOracleFail("remove:second-preview-announces-performed-removal",
+						"after remove -f the same command without -f announces the removal of a shard that -f reported as removed", rp2(map[string]any{"file": f}))
+				}
 			}
 		}
 	}
@@ -1127,6 +1182,9 @@ func (e *lsEnv) step(c lsCmd, which string, history []string) (res lsStepResult)
 
 	res.coq = cApp("mkCase", tree, fpTerm, lsInvTerm(invBefore), c.term(),
 		lsLinesTerm(dry), cN(ds), lsLinesTerm(force), cN(fsx), cBool(lockErr == nil), lsInvTerm(invAfter))
+	if which == "C33" { // Model/LocalSyncIdem.v: the shared case + the second preview's output and error class
+		res.coq = cApp("mkCase3", res.coq, lsLinesTerm(dry2), cN(ds2))
+	}
 	nrm, nidx, nutd := len(lsNames(dry, "would-remove")), len(lsNames(dry, "would-index")), len(lsNames(dry, "up-to-date"))
 	res.nontrivial = nrm+nidx > 0 || ds != 0
 	// which IndexState branch each previewed decision came from (measured, for the evidence histogram)
